@@ -6,7 +6,7 @@
 (* JSON and self-checks every variant on the spec: Abs(TParse(bytes)) = case, consumed =    *)
 (* produced (field `self`; a FALSE is an oracle error, never an implementation verdict).    *)
 (*                                                                                         *)
-(* Families (constant Family):                                                             *)
+(* Families (constant Family = the set of family names to emit in this run):               *)
 (*   "file"    FileMetaData over the parameter axes ns (schema size) x nm (name style) x    *)
 (*             iv (integer pattern) x opt (optional fields) x ll (list lengths) x st        *)
 (*             (statistics) x nrg (row groups): every value of one axis (quick) / of every  *)
@@ -192,7 +192,7 @@ MkPage(q) ==
                              numRows |-> Pick(I32Pool, iv + 4), encoding |-> N8(Pick(EncVals, iv + 1)),
                              defLen |-> Pick(I32Pool, iv + 5), repLen |-> Pick(I32Pool, iv + 6),
                              isCompressed |-> q.b, stats |-> StatsOf(q.st, iv)])]
-PageIvs == IF Quick THEN {0, 3, 4, 11} ELSE 0..16
+PageIvs == IF Quick THEN {0, 3, 4} ELSE 0..16
 PagePoints(ty) == [ty : {ty}, crc : 0..5, iv : PageIvs, st : IF ty \in {0, 3} THEN 0..6 ELSE {0}, b : BOOLEAN]
 
 \* ------------------------------------------------------------------ styles
@@ -238,7 +238,7 @@ UnkIds2 == <<21, 101, 32766, 22, 1001, 33>>
 FileKinds == <<"FileMetaData", "SchemaElement", "LogicalType", "DecimalType", "TimeType", "TimeUnit", "IntType",
                "EmptyType", "RowGroup", "ColumnChunk", "ColumnMetaData", "Statistics", "KeyValue", "PageEncodingStats">>
 PageKinds == <<"PageHeader", "DataPageHeader", "DataPageHeaderV2", "DictionaryPageHeader", "Statistics">>
-UnkAts == IF Quick THEN <<0, 1, 3, 99>> ELSE <<0, 1, 2, 3, 4, 5, 6, 8, 10, 12, 99>>
+UnkAts == IF Quick THEN <<0, 2, 99>> ELSE <<0, 1, 2, 3, 4, 5, 6, 8, 10, 12, 99>>
 
 \* fields that parquet.thrift defines and carquet does not model (realistic "unknown" fields)
 SortingColumns == List("struct", <<Struct(<<F(1, I(0)), F(2, Bool(TRUE)), F(3, Bool(FALSE))>>),
@@ -287,11 +287,23 @@ UnkBaseFile ==
     IN [f EXCEPT !.schema = [i \in 1..6 |-> IF i = 1 THEN f.schema[1] ELSE [f.schema[i] EXCEPT !.logical = <<lt[i - 1]>>]]]
 UnkBasePage(ty) == MkPage([ty |-> ty, crc |-> 3, iv |-> 4, st |-> 4, b |-> TRUE])
 
+RECURSIVE TyStr(_)
+TyStr(x) == CASE x.t \in {"list", "set"} -> x.t \o "<" \o x.et \o ">" \o (IF Len(x.v) > 0 /\ x.et \in {"list", "set", "map"} THEN ":" \o TyStr(x.v[1]) ELSE "")
+              [] x.t = "map" -> IF Len(x.v) = 0 THEN "map<>" ELSE "map<" \o x.kt \o "," \o x.vt \o ">"
+              [] x.t = "struct" -> IF Len(x.v) = 0 THEN "struct{}" ELSE IF Len(x.v) > 3 THEN "struct{nested}" ELSE "struct"
+              [] OTHER -> x.t
+\* variant 1 is the baseline (no unknown field), so that a difference that does not come from
+\* skipping can be told apart
 UnkVariants(kind, a, target, at) ==
-    [i \in 1..Len(UnkVals) |->
-        MkVariant(kind, a, ((i * 5) + at) % 32,
-                  [k \in {target} |-> <<[at |-> at, id |-> Pick(UnkIds, i + at), val |-> UnkVals[i]]>>],
-                  <<target, at, i>>)]
+    LET salt == Len(target) + at
+        \* quick: every (struct kind, payload) pair at one of the positions; thorough: at every position
+        idxs == SelectSeq([i \in 1..Len(UnkVals) |-> i], LAMBDA i : ~Quick \/ (i + salt) % 3 = 0)
+    IN <<MkVariant(kind, a, 0, <<>>, "plain")>> \o
+       [j \in 1..Len(idxs) |->
+           LET i == idxs[j]
+           IN MkVariant(kind, a, ((i * 5) + at) % 32,
+                        [k \in {target} |-> <<[at |-> at, id |-> Pick(UnkIds, i + at), val |-> UnkVals[i]]>>],
+                        [target |-> target, at |-> at, ty |-> TyStr(UnkVals[i]), idx |-> i])]
 
 \* ------------------------------------------------------------------ deep nesting (descriptor; bytes = pre ++ rep^n ++ post)
 DeepDepths == IF Quick THEN <<2, 16, 40, 200000>> ELSE <<2, 8, 16, 31, 40, 64, 1000, 200000, 1000000>>
@@ -321,7 +333,7 @@ GenericTrees ==
                     (IF pv + d <= 32767 THEN <<F(pv + d, Bool(d % 2 = 0)), F(pv + d + 1, I16V(M8(d)))>> ELSE <<F(32767, Bool(TRUE))>>) \o
                     <<F(5, L(pv))>>)]      \* the last id goes backwards: long form
     \o [i \in 1..Len(ListLens) |->
-          Struct(<<F(1, List("i32", [j \in 1..ListLens[i] |-> Pick(I32Pool, j)] )),
+          Struct(<<F(1, List("i32", [j \in 1..ListLens[i] |-> I32V(Pick(I32Pool, j))])),
                    F(2, List("bool", Bools(ListLens[i]))),
                    F(3, SetOf("binary", [j \in 1..(ListLens[i] % 20) |-> Bin(NameOf(3, j))])),
                    F(4, List("struct", [j \in 1..(ListLens[i] % 17) |-> Struct(<<F(j, Bool(j % 2 = 0)), F(j + 16, By(j))>>)]))>>)]
@@ -333,34 +345,37 @@ GenericTrees ==
           Struct(<<>>), NestedStruct >>
 
 \* ------------------------------------------------------------------ the two-level state graph
-Groups ==
-    CASE Family = "file" ->
-            IF Quick THEN {<<Axes[i], Axes[i]>> : i \in 1..Len(Axes)}
-            ELSE {<<Axes[i], Axes[j]>> : i \in 1..Len(Axes), j \in 1..Len(Axes)}
-      [] Family = "rand" -> 1..NRand
-      [] Family = "logical" -> {1}
-      [] Family = "page" -> {0, 1, 2, 3}
-      [] Family = "unkfile" -> {<<FileKinds[i], UnkAts[j]>> : i \in 1..Len(FileKinds), j \in 1..Len(UnkAts)}
-      [] Family = "unkpage" -> {<<PageKinds[i], UnkAts[j], ty>> : i \in 1..Len(PageKinds), j \in 1..Len(UnkAts), ty \in {0, 2, 3}}
-      [] Family = "deep" -> {<<k, DeepDepths[i]>> : k \in {"list", "set", "struct"}, i \in 1..Len(DeepDepths)}
-      [] Family = "generic" -> 1..Len(GenericTrees)
-      [] Family = "table" -> {1}
+\* Family is a set of family names; a group is <<family name, ...>>
+GroupsOf(fam) ==
+    CASE fam = "file" ->
+            IF Quick THEN {<<fam, Axes[i], Axes[i]>> : i \in 1..Len(Axes)}
+            ELSE {<<fam, Axes[i], Axes[j]>> : i \in 1..Len(Axes), j \in 1..Len(Axes)}
+      [] fam = "rand" -> {<<fam, n>> : n \in 1..NRand}
+      [] fam = "page" -> {<<fam, ty, crc>> : ty \in {0, 1, 2, 3}, crc \in 0..5}
+      [] fam = "unkfile" -> {<<fam, FileKinds[i], UnkAts[j]>> : i \in 1..Len(FileKinds), j \in 1..Len(UnkAts)}
+      [] fam = "unkpage" -> {<<fam, PageKinds[i], UnkAts[j], ty>> : i \in 1..Len(PageKinds), j \in 1..Len(UnkAts), ty \in {0, 2, 3}}
+      [] fam = "deep" -> {<<fam, k, DeepDepths[i]>> : k \in {"list", "set", "struct"}, i \in 1..Len(DeepDepths)}
+      [] fam = "generic" -> {<<fam, n>> : n \in 1..Len(GenericTrees)}
+      [] OTHER -> {<<fam>>}                    \* logical, table, obs
+Groups == UNION {GroupsOf(fam) : fam \in Family}
 
 IdxOf(ax) == CHOOSE i \in 1..Len(Axes) : Axes[i] = ax
 CasesOf(g) ==
-    CASE Family = "file" ->
-            IF g[1] = g[2] THEN {[k |-> "file", p |-> PointOf(g[1], Dom[g[1]][i], g[1], Dom[g[1]][i])] : i \in 1..Len(Dom[g[1]])}
-            ELSE IF IdxOf(g[1]) > IdxOf(g[2]) THEN {}
-            ELSE {[k |-> "file", p |-> PointOf(g[1], Dom[g[1]][i], g[2], Dom[g[2]][j])] :
-                     i \in 1..Len(Dom[g[1]]), j \in 1..Len(Dom[g[2]])}
-      [] Family = "rand" -> {[k |-> "file", p |-> RandP(g)]}
-      [] Family = "logical" -> {[k |-> "logical"]}
-      [] Family = "page" -> {[k |-> "page", q |-> q] : q \in PagePoints(g)}
-      [] Family = "unkfile" -> {[k |-> "unkfile", target |-> g[1], at |-> g[2]]}
-      [] Family = "unkpage" -> {[k |-> "unkpage", target |-> g[1], at |-> g[2], ty |-> g[3]]}
-      [] Family = "deep" -> {[k |-> "deep", nest |-> g[1], d |-> g[2]]}
-      [] Family = "generic" -> {[k |-> "generic", i |-> g]}
-      [] Family = "table" -> {[k |-> "table"]}
+    LET fam == g[1]
+    IN CASE fam = "file" ->
+            IF g[2] = g[3] THEN {[k |-> "file", fam |-> fam, p |-> PointOf(g[2], Dom[g[2]][i], g[2], Dom[g[2]][i])] : i \in 1..Len(Dom[g[2]])}
+            ELSE IF IdxOf(g[2]) > IdxOf(g[3]) THEN {}
+            ELSE {[k |-> "file", fam |-> fam, p |-> PointOf(g[2], Dom[g[2]][i], g[3], Dom[g[3]][j])] :
+                     i \in 1..Len(Dom[g[2]]), j \in 1..Len(Dom[g[3]])}
+      [] fam = "rand" -> {[k |-> "file", fam |-> fam, p |-> RandP(g[2])]}
+      [] fam = "logical" -> {[k |-> "logical", fam |-> fam]}
+      [] fam = "page" -> {[k |-> "page", fam |-> fam, q |-> q] : q \in {x \in PagePoints(g[2]) : x.crc = g[3]}}
+      [] fam = "unkfile" -> {[k |-> "unkfile", fam |-> fam, target |-> g[2], at |-> g[3]]}
+      [] fam = "unkpage" -> {[k |-> "unkpage", fam |-> fam, target |-> g[2], at |-> g[3], ty |-> g[4]]}
+      [] fam = "deep" -> {[k |-> "deep", fam |-> fam, nest |-> g[2], d |-> g[3]]}
+      [] fam = "generic" -> {[k |-> "generic", fam |-> fam, i |-> g[2]]}
+      [] fam = "table" -> {[k |-> "table", fam |-> fam]}
+      [] fam = "obs" -> {[k |-> "obs", fam |-> fam, what |-> "negative-typeLength-numChildren"]}
 
 \* Four levels, so that TLC's workers share the work: start -> group -> point -> value -> done.
 \* The abstract value is computed once (point -> value) and stored in the state; the variants are
@@ -371,6 +386,10 @@ LogicalFile ==
         f == MkFile(p)
     IN [f EXCEPT !.schema = [i \in 1..n |-> IF i = 1 THEN f.schema[1] ELSE [f.schema[i] EXCEPT !.logical = <<LtPool[i - 1]>>]]]
 
+\* outside the property's domain (parquet.thrift gives a negative type_length / num_children no
+\* meaning); executed and recorded as an observation only
+ObsFile == LET f == MkFile(BaseP)
+           IN [f EXCEPT !.schema[2].typeLength = Ones(8), !.schema[1].numChildren = M8(2), !.schema[3].typeLength = MinI32]
 UnkPageOk(pt) == ~( \/ (pt.target = "DataPageHeader" /\ pt.ty # 0) \/ (pt.target = "DictionaryPageHeader" /\ pt.ty # 2)
                     \/ (pt.target = "DataPageHeaderV2" /\ pt.ty # 3) \/ (pt.target = "Statistics" /\ pt.ty = 2))
 ValueOf(pt) ==
@@ -382,8 +401,9 @@ ValueOf(pt) ==
       [] pt.k = "deep" -> [k |-> "val", kind |-> "PageHeader", a |-> DeepBase, pt |-> pt]
       [] pt.k = "generic" -> [k |-> "val", kind |-> "generic", a |-> GenericTrees[pt.i], pt |-> pt]
       [] pt.k = "table" -> [k |-> "val", kind |-> "table", a |-> 0, pt |-> pt]
+      [] pt.k = "obs" -> [k |-> "val", kind |-> "FileMetaData", a |-> ObsFile, pt |-> pt]
 
-Out(vars, ab) == PrintT(ToJson([fam |-> Family, kind |-> c.kind, a |-> c.a, vars |-> vars, ab |-> ab, point |-> c.pt]))
+Out(vars, ab) == PrintT(ToJson([fam |-> c.pt.fam, kind |-> c.kind, a |-> c.a, vars |-> vars, ab |-> ab, point |-> c.pt]))
 
 Emit ==
     LET pt == c.pt
@@ -408,6 +428,7 @@ Emit ==
                            r == TParse(bs, 1)
                        IN [desc |-> "generic", sty |-> sel[j], bytes |-> bs, mayReject |-> FALSE,
                            self |-> r.ok /\ r.p = Len(bs) + 1 /\ r.v = a]], TRUE)
+      [] pt.k = "obs" -> Out(<<MkVariant("FileMetaData", a, 0, <<>>, "plain")>>, TRUE)
       [] pt.k = "table" -> PrintT(ToJson([table |-> Schema]))
 
 Init == c = [k |-> "start"]
